@@ -20,15 +20,17 @@ META = {
                       "any point, wait true/false, every interleaving at statement granularity (Lipton-reduced); unrolling depth K "
                       "is proved sufficient by the 'no run longer than K' query; 2 players with 0 control calls: bug hunting only "
                       "(sat search with a 90 s cap, nothing claimed)",
-             "thorough": "1 player with <=2 and <=3 control calls; 2 players (L<=1, <=1 control call) attempted with a 30 min cap per "
-                         "query and reported as not covered when the solver does not finish"},
+             "thorough": "1 player with <=2 control calls (claimed) and <=3 (attempted); 2 players with L<=1 and no control call "
+                         "(claimed when the threshold query finishes: ~3-6 min per query here); 2 players with 1 control call "
+                         "attempted with a 30 min cap per query and reported as not covered when the solver does not finish"},
   "outside": "sub-statement interleavings (CPython switches between bytecodes), 2-3 concurrent players unless the thorough queries "
              "finish (they did not within the cap on this machine: see evidence), recording streams, the backend's own behaviour",
   "stubs": ["pyaudio/_portaudio: ghost events (open, write, stop_stream, start_stream, close, terminate)",
             "threading.Lock / Event / Thread.start / join: guarded commands (acquire when free, wait when set, join when done)"],
   "assumptions": ["pre-emption at statement boundaries and blocking primitives only",
                   "wait=True: no player is left paused by the user when close() is called (otherwise 'wait for all audio' has no end)",
-                  "Lipton reduction: lock acquires are right movers, releases left movers, thread-local statements both movers"],
+                  "Lipton reduction: lock acquires are right movers, releases left movers, thread-local statements both movers",
+                  "two or more players: consecutive private steps of different players are explored in one order only (they commute)"],
 }
 
 
@@ -129,7 +131,8 @@ def main(a, seed):
   if tier == "thorough":
     cfgs.append(dict(P=1, H=2, LMAX=2, Ks=(40, 48, 56), tmo=900, claim=True))
     cfgs.append(dict(P=1, H=3, LMAX=1, Ks=(44, 52, 60), tmo=1200, claim=False))
-    cfgs.append(dict(P=2, H=1, LMAX=1, Ks=(44,), tmo=1800, claim=False))
+    cfgs.append(dict(P=2, H=0, LMAX=1, Ks=(40, 46), tmo=1800, claim=True))     # two players, no control call: ~3-6 min per query
+    cfgs.append(dict(P=2, H=1, LMAX=1, Ks=(46,), tmo=1800, claim=False))
   else:
     cfgs.append(dict(P=2, H=0, LMAX=1, Ks=(30,), tmo=90, claim=False, hunt=True))
     # three control calls, one chunk: bug hunting for shutdown problems within 40 steps (this is what found
